@@ -46,6 +46,8 @@ var runCounter int
 func NewCluster(w *World, sched Scheduler) *Cluster {
 	runCounter++
 	base := filepath.Join(shmRoot(), fmt.Sprintf("%d", os.Getpid()), fmt.Sprintf("run%d", runCounter))
+	// a killed process with the same pid may have left its directory behind
+	os.RemoveAll(base)
 	c := &Cluster{World: w, Sched: sched, BaseDir: base, SimTime: w.GenTime, ValPrivs: map[string]tmed.PrivKeyEd25519{}, Skew: map[string]time.Duration{}}
 	for _, vk := range w.AllValidatorKeys() {
 		c.RegisterValidatorKey(vk.ValKey.TmKey)
@@ -274,6 +276,7 @@ func (c *Cluster) Close() {
 		r.Shutdown()
 	}
 	os.RemoveAll(c.BaseDir)
+	os.Remove(filepath.Dir(c.BaseDir)) // the per-process directory, if this was its last run
 }
 
 // ProposerAddress returns the tendermint address (hex) of the proposer of the next block.
